@@ -23,7 +23,7 @@ VARIABLE l
 Trace == ndJsonDeserialize(TraceFile)
 
 ObsFields == {"bal", "supply", "val", "pidx", "prev", "prevTotal", "uq", "sinfo", "bits",
-              "awardQ", "burnQ", "proposer", "pkrel", "par", "denomAlt"}
+              "awardQ", "burnQ", "proposer", "pkrel", "par", "denomAlt", "posmAcc"}
 
 PairSet(q) == {<< q[i][1], q[i][2] >> : i \in 1..Len(q)}
 
@@ -35,13 +35,13 @@ RealOf(p) ==
     sinfo |-> p.sinfo, bits |-> [v \in Users |-> SeqToSet(p.bits[v])],
     awardQ |-> p.awardQ, burnQ |-> p.burnQ, proposer |-> p.proposer, pkrel |-> SeqToSet(p.pkrel),
     dAuth |-> p.dAuth, dRest |-> p.dRest, par |-> [maxVals |-> p.maxVals, minStake |-> p.minStake],
-    denomAlt |-> p.denomAlt ]
+    denomAlt |-> p.denomAlt, posmAcc |-> p.posmAcc ]
 
 Adopt(pred, r) ==
   [pred EXCEPT !.bal = r.bal, !.supply = r.supply, !.val = r.val, !.pidx = r.pidx, !.prev = r.prev,
                !.prevTotal = r.prevTotal, !.uq = r.uq, !.sinfo = r.sinfo, !.bits = r.bits,
                !.awardQ = r.awardQ, !.burnQ = r.burnQ, !.proposer = r.proposer, !.pkrel = r.pkrel,
-               !.dAuth = r.dAuth, !.dRest = r.dRest, !.par = r.par, !.denomAlt = r.denomAlt]
+               !.dAuth = r.dAuth, !.dRest = r.dRest, !.par = r.par, !.denomAlt = r.denomAlt, !.posmAcc = r.posmAcc]
 
 Obs(s) == [f \in ObsFields |-> s[f]]
 
@@ -82,7 +82,7 @@ LegalTransitions(pre, post, a, res) ==
        (ps = Unstaking /\ qs = -1 /\ a.a = "EndBlock" /\ p.uat <= pre.time /\ post.bal[v] = pre.bal[v] + p.tokens) \/
        \* any -> unstaked : forced unstake while slashing in BeginBlock, remainder burned
        (ps \in {Staked, Unstaking} /\ qs = Unstaked /\ a.a = "BeginBlock" /\ q.tokens = 0) \/
-       (a.a = "InitChain")
+       (a.a \in {"InitChain", "Crash"})
 
 \* C06: a mature validator is paid out at the first block at or after its completion time
 PayoutNotLate(pre, post, a, res) ==
@@ -96,7 +96,10 @@ UnjailGuard(pre, post, a, res) ==
 UnjailNoSpuriousReject(pre, post, a, res) ==
   (a.a = "Tx" /\ a.kind = "unjail" /\ res.class = "rej_post") => ~UnjailAllowed(pre, a.from)
 TombstoneForever(pre, post, a, res) ==
-  \A v \in Users : pre.sinfo[v].tomb => post.sinfo[v].tomb
+  a.a # "Crash" => \A v \in Users : pre.sinfo[v].tomb => post.sinfo[v].tomb
+\* a node reopened after a crash has exactly what it had committed, byte for byte
+CrashRecoversCommitted(pre, post, a, res) ==
+  a.a = "Crash" => (Obs(post) = Obs(pre.snap[1]) /\ post.dAuth = pre.snap[1].dAuth /\ post.dRest = pre.snap[1].dRest)
 
 \* C10: at BeginBlock(H+1) the whole fee collector balance goes to the previous proposer (or
 \* stays in the pos module account), and queued awards are minted exactly once
@@ -121,7 +124,17 @@ NoAwardOutsideBegin(pre, post, a, res) ==
 SupplyMoves(pre, post, a, res) ==
   a.a # "InitChain" => post.supply - pre.supply = (post.minted - pre.minted) - (post.burned - pre.burned)
 
-ActionProps(pre, post, a, res) ==
+\* C08: "slashed and jailed for downtime at exactly the first block ...": whether a validator loses
+\* stake in a BeginBlock that carries no evidence against it and finds no burn queued for it is
+\* decided by its window alone - the real transition must agree with the specification's step from
+\* the same real pre-state (pd) on WHETHER it was slashed (the amount is C07's subject)
+DowntimeSlashExactlyWhenDue(pre, post, a, pd) ==
+  (a.a = "BeginBlock" /\ pd.halt = "") =>
+     \A v \in Users :
+        (pre.val[v].ex /\ pre.burnQ[v] = -1 /\ ~(\E i \in 1..Len(a.evs) : a.evs[i].v = v)) =>
+           ((post.val[v].tokens < pre.val[v].tokens) <=> (pd.val[v].tokens < pre.val[v].tokens))
+
+ActionProps(pre, post, a, res, pd) ==
   << << "C11.RejectedNoTrace", RejectedNoTrace(pre, post, a, res) >>,
      << "C11.RejectedOnlyFee", RejectedOnlyFee(pre, post, a, res) >>,
      << "C11.ReadOnlyNoTrace", ReadOnlyNoTrace(pre, post, a, res) >>,
@@ -133,7 +146,9 @@ ActionProps(pre, post, a, res) ==
      << "C10.FeesToProposer", FeesToProposer(pre, post, a, res) >>,
      << "C10.AwardsMintedOnce", AwardsMintedOnce(pre, post, a, res) >>,
      << "C10.NoAwardOutsideBegin", NoAwardOutsideBegin(pre, post, a, res) >>,
-     << "C02.SupplyMoves", SupplyMoves(pre, post, a, res) >> >>
+     << "C02.SupplyMoves", SupplyMoves(pre, post, a, res) >>,
+     << "C12.CrashRecoversCommitted", CrashRecoversCommitted(pre, post, a, res) >>,
+     << "C08.DowntimeSlashExactlyWhenDue", DowntimeSlashExactlyWhenDue(pre, post, a, pd) >> >>
 
 StateProps(s) ==
   << << "C02.SupplyIsSum", SupplyIsSum(s) >>,
@@ -194,8 +209,10 @@ TraceNext ==
                        ELSE post
               div5 == IF pred0.halt # "" THEN {"halt"} ELSE {}
               div == div0 \cup div1 \cup div2 \cup div3 \cup div4 \cup div5
-              bad == Failed(StateProps(post2)) \cup Failed(ActionProps(pre, post2, a, e.res)) \cup tmbad
-          IN /\ st' = post2
+              bad == Failed(StateProps(post2)) \cup Failed(ActionProps(pre, post2, a, e.res, pred0)) \cup tmbad
+              \* the real state at a Commit is what a crashed node must come back with
+              post3 == IF a.a = "Commit" /\ MaxCrashes > 0 THEN [post2 EXCEPT !.snap = << Strip(post2) >>] ELSE post2
+          IN /\ st' = post3
              /\ (IF div # {} \/ bad # {} THEN PrintT("DIV " \o ToJson([l |-> l, b |-> e.b, div |-> div, bad |-> bad, note |-> pred0.halt])) ELSE TRUE)
 
 TraceSpec == TraceInit /\ [][TraceNext]_<<st, l>>
